@@ -19,6 +19,7 @@ NAMED_MAX = 1 << 16      # interned names available to the history: $n0 .. $n655
 LANGS = {
     'Lf': {'f': ('F', 'ss'), 'g': ('G', 'ss'), 'h': ('H', 'sss'), 'w': ('W', 'ssss')},
     'Lm': {'mvar': ('MVar', 's'), 'madd': ('MAdd', 'cc'), 'mmul': ('MMul', 'cc'), 'msum': ('MSum', 'bc'), 'mlet': ('MLet', 'bcc')},
+    'La': {'avar': ('AVar', 's'), 'aadd': ('AAdd', 'cc'), 'amul': ('AMul', 'cc'), 'alam': ('ALam', 'bc'), 'num': ('ANum', 'p')},
     'Lb': {'var': ('Var', 's'), 'app': ('App', 'cc'), 'lam': ('Lam', 'bc'), 'k': ('K', 'ss'), 'u': ('U', 'c'), 'j': ('J', 'ss'), 't3': ('T3', 'sss'), 's3': ('S3', 'sss'), 'm3': ('M3', 'sss'), 'at': ('At', 'sc'), 'ta': ('Ta', 'cs')},
 }
 
@@ -52,7 +53,7 @@ class Template:
             if t[0] == 'rule_if': return '%s: %s => %s if %s($%s)' % (t[1], show(t[2]), show(t[3]), t[4], 'abcdefghijklmnop'[t[5]])
             if t[0] == 'subst': return '%s[%s := %s]' % (show(t[1]), show(t[2]), show(t[3]))
             sig = O.SIG[t[0]]
-            return '(' + t[0] + ''.join(' $' + 'abcdefghijklmnop'[a] if k in 'sb' else ' ' + show(a) for k, a in zip(sig, t[1:])) + ')'
+            return '(' + t[0] + ''.join(' $' + 'abcdefghijklmnop'[a] if k in 'sb' else (' %d' % a if k == 'p' else ' ' + show(a)) for k, a in zip(sig, t[1:])) + ')'
         return '; '.join(op[0] + ' ' + ' '.join(show(x) if isinstance(x, (tuple, list, str)) else str(x) for x in op[1:]) for op in self.ops)
 
 def name_precondition(N, f0=F0_DEFAULT):
@@ -121,6 +122,7 @@ class SymRun:
         for kind in sig:
             a = term[i]; i += 1
             if kind == 's': fields[fi] = slot(self.N[a]); fi += 1
+            elif kind == 'p': fields[fi] = U32(a); fi += 1
             elif kind == 'b': pending_bind = a
             else:
                 child = cp(self.handles[a])
@@ -241,6 +243,7 @@ class SymRun:
         for kind in sig:
             a = p[i]; i += 1
             if kind == 's': fields[fi] = slot(self.N[a]); fi += 1
+            elif kind == 'p': fields[fi] = U32(a); fi += 1
             elif kind == 'b': pending = a
             else:
                 kids.append(self.pat_value(a))
@@ -267,6 +270,7 @@ class SymRun:
         for kind in sig:
             a = p[i]; i += 1
             if kind == 's': fields[fi] = slot(self.N[a]); fi += 1
+            elif kind == 'p': fields[fi] = U32(a); fi += 1
             elif kind == 'b': pending = a
             else:
                 ch = self.lookup_pattern(a, sub)
@@ -288,6 +292,7 @@ class SymRun:
             for kind in sig:
                 a = t[i]; i += 1
                 if kind == 's': fields[fi] = slot(self.N[a]); fi += 1
+                elif kind == 'p': fields[fi] = U32(a); fi += 1
                 elif kind == 'b': pending = a
                 else:
                     ch = rec(a)
@@ -308,6 +313,7 @@ class SymRun:
         out = [op]; fi = 0
         for kind in self.variants[op][1]:
             if kind == 's': out.append(node.payload.f[fi].f[0]); fi += 1
+            elif kind == 'p': out.append(('#', conc(node.payload.f[fi]))); fi += 1
             elif kind == 'b': out.append(node.payload.f[fi].f[0].f[0])
             else: out.append(self.describe_rec(kids.pop(0))); fi += 1
         return out
@@ -320,6 +326,7 @@ class SymRun:
         out = [op]; fi = 0; bind = False
         for kind in self.variants[op][1]:
             if kind == 's': out.append(node.payload.f[fi].f[0]); fi += 1
+            elif kind == 'p': out.append(('#', conc(node.payload.f[fi]))); fi += 1
             elif kind == 'b': out.append(node.payload.f[fi].f[0].f[0]); bind = True
             else:
                 v = node.payload.f[fi]; fi += 1
@@ -381,13 +388,13 @@ class SymRun:
             sl = ex.call(self.M('EGraph::slots'), [self.egref, idv])
             cls[i] = {'nslots': len(sl.items), 'gcount': self.perm_count(i, idv), 'gcount_int': self.group_count(i)}
             if self.t.analysis != '()':
-                cls[i]['data'] = conc(dd(ex.call(self.M('EGraph::analysis_data'), [self.egref, idv])))
+                cls[i]['data'] = data_value(dd(ex.call(self.M('EGraph::analysis_data'), [self.egref, idv])))
                 # the datum is the merge-fold of make over the class's e-nodes, computed from the children's current data (the crate's own make/merge)
                 acc = None
                 for n in ex.call(self.M('EGraph::enodes'), [self.egref, idv]).items:
                     v = ex.call_callee('<N as analysis::Analysis<L>>::make', [self.egref, Ref({'n': n}, 'n')])
                     acc = v if acc is None else ex.call_callee('<N as analysis::Analysis<L>>::merge', [acc, v])
-                cls[i]['data_fix'] = None if acc is None else conc(acc)
+                cls[i]['data_fix'] = None if acc is None else data_value(acc)
         snap['classes'] = cls
         if self.t.model:
             dump = {}
@@ -447,6 +454,11 @@ class SymRun:
                     if not any(ex.decide(val_eq(s, y)) for y in ns.items): bad.append(('slots', i))
         if bad: out['consistency'] = bad
         return out
+
+def data_value(v):
+    """analysis datum -> JSON value: integers as they are, Option<u32> as the number or 'none'"""
+    if isinstance(v, Enum): return conc(v.payload.f[0]) if v.disc == 1 else 'none'
+    return conc(v)
 
 def short_fn(name):
     if not name: return name
